@@ -53,5 +53,12 @@ func RecoverNativeDenom(denom, sourcePort, sourceChannel string) (string, error)
 		return "", errors.New("orbiter supports only native coins")
 	}
 
+	// A denom in the hashed form "ibc/{hash}" has no path to parse, but it is the
+	// representation of a voucher, whose trace is hidden behind the hash, and not of a native
+	// coin. The ICS20 application would release such a voucher from the channel escrow.
+	if strings.HasPrefix(unprefixedDenom, transfertypes.DenomPrefix+"/") {
+		return "", errors.New("orbiter supports only native coins")
+	}
+
 	return unprefixedDenom, nil
 }
